@@ -117,6 +117,9 @@ func c16OwnSpecs(quick bool) []*bfs.Spec {
 		Init: []string{"fund|8", "fund|4,2,1,1", "meltq|4"}, Menu: c16Menu, Probe: c16Probe, Depth: d - 1})
 	specs = append(specs, &bfs.Spec{Prop: "C16", Name: "C16-meltmax4-mpp" + sfx0, Cfg: mintops.Config{Fee: 0, MPP: true, Limits: mint.MintLimits{MeltingSettings: mint.MeltMethodSettings{MaxAmount: 4}}},
 		Init: []string{"fund|8", "fund|4,2,1,1"}, Menu: c16Menu, Probe: c16Probe, Depth: d - 1})
+	// totals beyond 2^53 (where a sum made in double precision stops being exact): 2^53 + 1 + 2 issued, the limit one above
+	specs = append(specs, &bfs.Spec{Prop: "C16", Name: "C16-above-2pow53" + sfx0, Cfg: mintops.Config{Fee: 0, Limits: mint.MintLimits{MaxBalance: 1<<53 + 4}},
+		Init: []string{"fund|9007199254740992", "fund|1", "fund|2"}, Menu: c16Menu, Probe: c16Probe, Depth: 1})
 	for _, c := range cfgs {
 		specs = append(specs, &bfs.Spec{Prop: "C16", Name: "C16-" + c.name + map[bool]string{true: "-q", false: ""}[quick], Cfg: mintops.Config{Fee: c.fee, Limits: c.l},
 			Init: []string{"fund|8", "fund|4,2,1,1"}, Menu: c16Menu, Probe: c16Probe, Depth: d})
